@@ -90,7 +90,7 @@ Proof.
   rewrite Hr. cbn [bind].
   assert (Hm : match of_opt (fun d => PDict (map (fun kv => (of_ind (fst kv), PList (map PInt (snd kv)))) d)) mem with
                | PNone => Ok PNone
-               | PDict kvs => do r <- mapR (fun kv : pyval * pyval => let '(k, v) := kv in do y <- evqe_default k; Ok (PList [y; v])) kvs; Ok (PList r)
+               | PDict kvs | PObj CQuasiDist (PDict kvs :: _) => do r <- mapR (fun kv : pyval * pyval => let '(k, v) := kv in do y <- evqe_default k; Ok (PList [y; v])) kvs; Ok (PList r)
                | _ => Err ModelScope
                end = Ok (n_opt (fun l => PList (map n_member l)) mem)).
   { destruct mem as [l|]; cbn [of_opt n_opt]; [|reflexivity].
@@ -98,7 +98,7 @@ Proof.
   rewrite Hm. cbn [bind].
   assert (Hs : match of_opt (fun d => PDict (map (fun kv => (PInt (fst kv), of_ind (snd kv))) d)) mship with
                | PNone => Ok PNone
-               | PDict kvs => do r <- mapR (fun kv : pyval * pyval => let '(k, v) := kv in do y <- evqe_default v; Ok (PList [k; y])) kvs; Ok (PList r)
+               | PDict kvs | PObj CQuasiDist (PDict kvs :: _) => do r <- mapR (fun kv : pyval * pyval => let '(k, v) := kv in do y <- evqe_default v; Ok (PList [k; y])) kvs; Ok (PList r)
                | _ => Err ModelScope
                end = Ok (n_opt (fun l => PList (map n_membership l)) mship)).
   { destruct mship as [l|]; cbn [of_opt n_opt]; [|reflexivity].
